@@ -30,7 +30,7 @@ try:
         if d['expect'] == 'none':
             ok = not fails and not unsup
         else:
-            ok = any(re.search(d['expect'], f) for f in fails)
+            ok = any(re.search(d['expect'], f) for f in fails) or (d['expect'] == 'hint-mismatch' and bool(unsup))
         print(f"{name}: {'ok' if ok else 'NOT-AS-EXPECTED'}  expect={d['expect']}  failed={fails[:3]} {unsup[:1]}")
         bad += 0 if ok else 1
     print('selftest:', 'all rows behave' if bad == 0 else f'{bad} row(s) misbehave')
